@@ -147,6 +147,9 @@ def check(tier, seed):
         if rec["outcome"] != "design":
             continue
         rep.evaluations += 1
+        if "tables" not in rec:
+            rep.count("design_runs_without_tables_because_prepare_results_raised")
+            continue
         n_tables += 1
         rep.nontrivial([rec["key"]])
         for k, msg in rec["tables"].items():
